@@ -467,7 +467,9 @@ func zzH_C02_session() {
 	}
 	if !upload {
 		// in a download the client is the side that saves: its "#EXIT:" line is its report of success ("Saved ...")
-		if msg := zzSessExitMessage(s); len(msg) > 0 {
+		msg := zzSessExitMessage(s)
+		named := "\r\n- " + res.name // the report counts for this file only when it names it ("Saved 0 file/directory" names none)
+		if len(msg) >= len(named) && msg[len(msg)-len(named):] == named {
 			verifAssert(verifFSKind(res.root+"/"+res.name) == 1 && zzSessFileIntact(res),
 				"the client reported the download as saved although the destination differs from the source")
 			verifReach("client-saved")
